@@ -436,6 +436,13 @@ def c19(rec):
             out.append(dict(signature=f"C19:depth-seen:{p['depth_seen']}vs{want}|cause={c}",
                             msg=f"{p['label']} ran a task while its nesting depth was "
                                 f"{p['depth_seen']} instead of {want}"))
+    for ev in rec.log:
+        if ev[0] == "init" and ev[3] != want:
+            out.append(dict(signature=f"C19:depth-in-initializer:{ev[3]}vs{want}|cause={c}",
+                            msg=f"{ev[1]} ran its initializer while its nesting depth was "
+                                f"{ev[3]} instead of {want}: an executor created there is "
+                                f"mis-numbered"))
+            break
     return out, _cls(rec) + (len(rec.procs),)
 
 
